@@ -70,6 +70,13 @@ func (b *builder) build() {
 		if d.API.Path != "" {
 			HTTP(func() { Path(d.API.Path) })
 		}
+		if len(d.API.HTTPErrors) > 0 { // API-level error responses (C05); HTTP may appear several times in API
+			HTTP(func() {
+				for _, e := range d.API.HTTPErrors {
+					b.httpError(e)
+				}
+			})
+		}
 		for i := 0; i < d.API.Servers; i++ {
 			Server(fmt.Sprintf("srv%d", i+1), func() {
 				Host("localhost", func() { URI("http://localhost:8080") })
@@ -512,6 +519,19 @@ func (b *builder) method(s ad.Service, m ad.Method) {
 				for _, a := range sortedKeys(h.Cookies) {
 					Cookie(mapped(a, h.Cookies[a]))
 				}
+				if len(h.ParamsRequired) > 0 { // required in the transport only
+					Params(func() { Required(h.ParamsRequired...) })
+				}
+				if len(h.HeadersRequired) > 0 {
+					Headers(func() { Required(h.HeadersRequired...) })
+				}
+				if h.MapParams != nil {
+					if *h.MapParams == "" {
+						MapParams()
+					} else {
+						MapParams(*h.MapParams)
+					}
+				}
 				switch {
 				case h.Body == "-":
 					Body(Empty)
@@ -544,6 +564,9 @@ func (b *builder) method(s ad.Service, m ad.Method) {
 						}
 						for _, a := range sortedKeys(r.Cookies) {
 							Cookie(mapped(a, r.Cookies[a]))
+						}
+						if len(r.HeadersRequired) > 0 { // required in the transport only
+							Headers(func() { Required(r.HeadersRequired...) })
 						}
 						switch {
 						case r.Body == "-":
